@@ -12,6 +12,7 @@ import (
 	"fmt"
 	"go/ast"
 	"go/parser"
+	"go/printer"
 	"go/token"
 	"os"
 	"path/filepath"
@@ -221,6 +222,38 @@ func extractFixedSizes(f *ast.File) {
 	}
 }
 
+// extractEnumSizeRule: File.fixedSizes must give EVERY enum the width of its base type
+// (`for _, en := range f.Enums { out[en.Name] = fixedSizeTypes[en.SimpleType] }`, nothing else in the loop);
+// the model treats an enum as a scalar of its base width everywhere (Size() short cut, length checks).
+func extractEnumSizeRule() {
+	fset, gt := parseFile("gen_types.go")
+	rule := "unrecognised"
+	if fd := findMethod(gt, "File", "fixedSizes"); fd != nil && fd.Body != nil {
+		for _, st := range fd.Body.List {
+			rs, ok := st.(*ast.RangeStmt)
+			if !ok || exprText(fset, rs.X) != "f.Enums" {
+				continue
+			}
+			v, ok := rs.Value.(*ast.Ident)
+			if !ok || len(rs.Body.List) != 1 {
+				rule = "unrecognised: " + exprText(fset, rs.X) + " loop has " + strconv.Itoa(len(rs.Body.List)) + " statements"
+				continue
+			}
+			var b strings.Builder
+			_ = printer.Fprint(&b, fset, rs.Body.List[0])
+			if b.String() == "out["+v.Name+".Name] = fixedSizeTypes["+v.Name+".SimpleType]" {
+				rule = "base-width"
+			} else {
+				rule = "unrecognised: " + b.String()
+			}
+		}
+	}
+	rep.Facts["enumFixedSizeRule"] = rule
+	if rule != "base-width" {
+		unrec("enumFixedSizeRule", rule)
+	}
+}
+
 // ---- GUID tables ---------------------------------------------------------------------------------
 
 func indexOf(e ast.Expr, base string) (int, bool) {
@@ -360,6 +393,7 @@ func main() {
 
 	_, tmpl := parseFile("gen_templates.go")
 	extractFixedSizes(tmpl)
+	extractEnumSizeRule()
 	consts := constStrings(tmpl)
 
 	_, ioh := parseFile("iohelp/iohelp.go")
@@ -482,6 +516,7 @@ func writeLean(classes [][]string) {
 	for _, n := range []string{"guidWritePerm", "guidWriteStreamPerm", "guidReadPerm"} {
 		fmt.Fprintf(&b, "def %s : List Nat := %s\n", n, leanList(rep.Facts[n].([]int)))
 	}
+	fmt.Fprintf(&b, "\n/-- how File.fixedSizes sizes an enum: \"base-width\" = every enum gets the width of its base type -/\ndef enumFixedSizeRule : String := %s\n", strconv.Quote(fmt.Sprint(rep.Facts["enumFixedSizeRule"])))
 	b.WriteString("\n/-- For each option-dependent template choice: (class of the default alternative, classes of all alternatives). -/\n")
 	b.WriteString("def optionTemplateClasses : List (String × List String) := [\n")
 	for i, row := range classes {
